@@ -23,6 +23,12 @@ def _f17_c15(case, details):
     """F17: db(**selection) with an empty selection raises IndexError"""
     return case.get('kind') == 'empty_selection' and 'IndexError' in str(details)
 
+@signature('superpose_equal_size_positional_pairing')
+def _f7_c13(case, details):
+    """F7: superpose pairs the two selections by POSITION when they merely have the same size"""
+    return details.get('why') == 'not optimal on the shared (identity-matched) selection' \
+        and details.get('equal_sizes') is True and details.get('pairing_differs') is True
+
 def match(prop, mismatch, active):
     for k in active:
         f = SIGNATURES.get(k['signature'])
